@@ -83,11 +83,14 @@ VARIANTS = [
          [(WK, "            while self.objective and self.objective[: len(address)] == address:", "            while self.objective or self.objective[: len(address)] == address:")],
          ("C08.9", "TraceVisitor.visit_LoopStatement"), ("C08",)),
     # ---- used-qubit helper polarity (C13.13)
-    fire("s2-resolve-argument-not-in-context",
-         [(UQ, "        if isinstance(arg, Parameter) and context and arg.name in context:", "        if isinstance(arg, Parameter) and context and arg.name not in context:")],
-         ("C13.13", "_resolve_argument"), ("C13",)),
+    fire("s2-resolve-argument-only-when-bound",
+         [(UQ, "        if isinstance(arg, Parameter):\n            return self._resolve_argument", "        if isinstance(arg, Parameter) and context and arg.name in context:\n            return self._resolve_argument")],
+         ("*", "_resolve_argument:lookup"), ("C13", "C07")),
+    fire("s2-resolve-argument-swallows-failure",
+         [(UQ, "            reg, idx = arg.resolve_qubit(context)\n            if isinstance(idx, float) and idx.is_integer():\n                idx = int(idx)\n            return reg[idx]", "            try:\n                reg, idx = arg.resolve_qubit(context)\n            except JaqalError:\n                return arg\n            if isinstance(idx, float) and idx.is_integer():\n                idx = int(idx)\n            return reg[idx]")],
+         ("*", "_resolve_argument:unresolved-not-forwarded"), ("C13", "C07")),
     fire("s2-resolve-argument-qubit-negated",
-         [(UQ, "        if isinstance(arg, NamedQubit):\n            try:", "        if not (isinstance(arg, NamedQubit)):\n            try:")],
+         [(UQ, "        if isinstance(arg, NamedQubit):\n            reg, idx = arg.resolve_qubit(context)", "        if not (isinstance(arg, NamedQubit)):\n            reg, idx = arg.resolve_qubit(context)")],
          ("C13.13", "_resolve_argument"), ("C13",)),
     fire("s2-index-truncated",
          [(UQ, "            if isinstance(idx, float) and idx.is_integer():\n                idx = int(idx)\n            return reg[idx]", "            if isinstance(idx, float):\n                idx = int(idx)\n            return reg[idx]")],
